@@ -367,7 +367,11 @@ class Executor:
                 if not ok:
                     continue
                 if len(gens) > 1:
-                    out.extend(self._comp(elt_eval, gens[1:], e2, node))
+                    sub = self._comp(elt_eval, gens[1:], e2, node)
+                    if isinstance(sub, list):
+                        out.extend(sub)
+                    else:
+                        out.append(V.Chunk(sub))          # a symbolic-length run of elements
                 else:
                     out.append(elt_eval(e2))
             return out
@@ -378,16 +382,37 @@ class Executor:
         env0 = dict(env)     # snapshot: later rebinding must not leak into element closures
 
         def item(k):
-            e2 = dict(env0)
-            self.bind(gen.target, seq.item(k), e2, node)
-            return elt_eval(e2)
+            # element k, evaluated lazily.  Inside, operations that would raise for a bad element (tuple.index of an
+            # absent name ...) do not fork the path: they record their definedness condition (collected below)
+            self.lazy_depth = getattr(self, "lazy_depth", 0) + 1
+            try:
+                e2 = dict(env0)
+                self.bind(gen.target, seq.item(k), e2, node)
+                return elt_eval(e2)
+            finally:
+                self.lazy_depth -= 1
 
+        keep = None
         if gen.ifs:
             def keep(k):
                 e2 = dict(env0)
                 self.bind(gen.target, seq.item(k), e2, node)
                 cs = [self.ev_test(c, e2) for c in gen.ifs]
                 return V.and_all(cs)
+        # a comprehension is evaluated eagerly by Python: every (selected) element must be defined.  The element
+        # expression is evaluated once for an arbitrary index; the conditions it records become one obligation.
+        k0 = z3.Int(self.ctx.fresh("k0"))
+        self.lazy_pre = getattr(self, "lazy_pre", [])
+        self.lazy_pre.append([])
+        try:
+            item(k0)
+        finally:
+            pre = self.lazy_pre.pop()
+        if pre:
+            rng = z3.And(0 <= k0, k0 < seq.n) if keep is None else z3.And(0 <= k0, k0 < seq.n, V.asbool(keep(k0)))
+            self.oblige(self.site("comprehension") + ".every_element_defined",
+                        z3.ForAll([k0], z3.Implies(rng, z3.And(*pre))), "precondition", node)
+        if keep is not None:
             return V.filtered_seq(self, seq, item, keep, node)
         return V.Seq(seq.n, item)
 
